@@ -257,6 +257,37 @@ impl Check for C20 {
         } else {
             st.inc("schedules_with_a_starved_call");
         }
+        // schedule class: where the async reads ended relative to the parsed structure
+        if n <= 600 {
+            let tags: Vec<TagV> = crate::val::flatten(&refr.ok_prefix().into_iter().map(|(t, _)| t).collect::<Vec<_>>());
+            if let Ok((walked, _)) = walk(&c.spec, &c.input, &tags, 0) {
+                let mut set: Vec<(u8, u8, u8)> = Vec::new();
+                let mut pos = 0usize;
+                for sz in &a.split_sizes {
+                    pos += sz;
+                    if pos < n {
+                        let cl = crate::refdec::phase_at(&walked, pos);
+                        if !set.contains(&cl) {
+                            set.push(cl);
+                        }
+                    }
+                }
+                set.sort();
+                let mut f = Fp::default();
+                for (x, y, z) in &set {
+                    f.u(*x as u64 | (*y as u64) << 8 | (*z as u64) << 16);
+                    st.inc(match x {
+                        0 => "probe_read_ends_on_tag_boundary",
+                        1 => "probe_read_ends_inside_id",
+                        2 => "probe_read_ends_inside_size_field",
+                        3 => "probe_read_ends_inside_payload",
+                        _ => "probe_read_ends_beyond_parsed_region",
+                    });
+                }
+                f.u(c.use_stream as u64).u((a.pendings > 0) as u64).u(!c.buffered.is_empty() as u64).u(refr.first_error().is_some() as u64);
+                st.class(f.0);
+            }
+        }
         judge(c, &refr, &a)?;
         if sv.is_some() {
             st.inc("probe_starved_schedule_passed");
@@ -337,7 +368,7 @@ impl Check for C20 {
     }
 
     fn rule(&self) -> &'static str {
-        "One case = specification + input (valid / truncated / byte-faulted; some larger than the 64 KiB transfer buffer) + buffered-id set + an async delivery schedule (fill-the-buffer reads, fixed small reads down to 1 byte, single split, large head then dribble, random compositions; Pending with immediate or deferred wake before a random subset of reads) driving TagIteratorAsync::next() or the into_stream() adapter on a single-threaded executor; events (items, offsets for next(), first error, single termination) must equal those of the blocking iterator over the same bytes; lost wake-ups and poll budgets are detected. Non-trivial: at least 3 events and at least 2 completed reads. Distinct: FNV-1a fingerprint of bytes + schedule + buffered set."
+        "One case = specification + input (valid / truncated / byte-faulted; some larger than the 64 KiB transfer buffer) + buffered-id set + an async delivery schedule (fill-the-buffer reads, fixed small reads down to 1 byte, single split, large head then dribble, random compositions; Pending with immediate or deferred wake before a random subset of reads) driving TagIteratorAsync::next() or the into_stream() adapter on a single-threaded executor; events (items, offsets for next(), first error, single termination) must equal those of the blocking iterator over the same bytes; lost wake-ups and poll budgets are detected. Non-trivial: at least 3 events and at least 2 completed reads. Distinct: FNV-1a fingerprint of bytes + schedule + buffered set. coverage.distinct_schedule_classes counts distinct sets of (parser phase at which an async read ended, nesting depth, innermost master kind) x adapter x Pending/buffered/error flags (inputs <= 600 bytes)."
     }
     fn assumptions(&self) -> Vec<&'static str> {
         vec![
